@@ -39,6 +39,10 @@ Rewrite rules (each application is counted per function and reported in the evid
   R8  the surrounding `impl Trait for T` header is not copied: the method is emitted where the
       template places it (an inherent impl); `as name` renames the fn identifier in its own header
   R9  `ret r`: the return type `-> T` becomes `-> (r: T)` so that clauses can name the result
+  R16 a reference pattern that binds no variable - `&(_, Dir::Left)` - loses its `&` (`Some(&(_, Dir::Left))` ->
+      `Some((_, Dir::Left))`): by default binding modes both match exactly the same values; Verus rejects `&` patterns
+  R17 `for &(a, b) in EXPR {` -> `for r17_ in EXPR { let (a, b) = *r17_;`: the reference pattern of a `for` header
+      becomes a first body statement copying the (Copy) tuple out of the reference - same bindings, same values
   R15 `//@stmts file | container | fn | from "a" | to "b"`: a contiguous statement range of a function body
       (from the statement containing anchor a through the statement containing anchor b) is emitted verbatim
       inside a wrapper function whose header, parameters and return expression are written in the template;
@@ -330,6 +334,34 @@ def apply_rewrites(body, counts):
         else:
             edits.append((s_, c + 1, "fmt::sink_other(%s)" % args[0]))
         counts["R4"] = counts.get("R4", 0) + 1
+    # R16 a reference pattern that binds nothing - `&(_, Dir::Left)` - loses its `&`: by Rust's default binding modes
+    # `Some(&(_, Dir::Left))` and `Some((_, Dir::Left))` match exactly the same `Option<&(T, Dir)>` values (Verus rejects `&` patterns)
+    for m in re.finditer(r"&(\((?:\s*(?:_|[A-Z]\w*(?:::\w+)+)\s*,?)+\))", body):
+        if mask[m.start()]:
+            edits.append((m.start(), m.end(), m.group(1)))
+            counts["R16"] = counts.get("R16", 0) + 1
+    # R17 `for &(a, b) in EXPR {` -> `for r17_ in EXPR { let (a, b) = *r17_;` - the reference pattern of a for header is
+    # moved into a first statement that copies the (Copy) tuple out of the reference: same bindings, same values
+    for m in re.finditer(r"\bfor\s+&(\(\s*\w+(?:\s*,\s*\w+)*\s*\))\s+in\b", body):
+        if not mask[m.start()]:
+            continue
+        i = m.end()
+        depth = 0
+        while i < len(body):
+            if mask[i]:
+                ch = body[i]
+                if ch in "([":
+                    depth += 1
+                elif ch in ")]":
+                    depth -= 1
+                elif ch == "{" and depth == 0:
+                    break
+            i += 1
+        if i >= len(body):
+            raise ExtractError("R17: for header without body")
+        edits.append((m.start(), m.end(), "for r17_ in"))
+        edits.append((i + 1, i + 1, " let %s = *r17_; /*R17*/" % m.group(1)))
+        counts["R17"] = counts.get("R17", 0) + 1
     # R13 `use crate::...;` inside a body: dropped (the unit's prelude provides the name)
     for m in re.finditer(r"\buse\s+crate::[\w:]+\s*;", body):
         if mask[m.start()]:
@@ -537,7 +569,11 @@ def splice(body, sections, fname):
                 if k >= len(loops):
                     raise ExtractError("%s: loop %d not found" % (fname, k))
                 if m.group(2) == "start":
-                    inserts.append((loops[k][1] + 1, "\n" + text + "\n"))
+                    pos = loops[k][1] + 1
+                    mm = re.match(r" let \([^)]*\) = \*r17_; /\*R17\*/", body[pos:])
+                    if mm:
+                        pos += mm.end()  # after the destructuring statement rule R17 put first
+                    inserts.append((pos, "\n" + text + "\n"))
                 else:
                     inserts.append((loops[k][2], "\n" + text + "\n"))
                 continue
